@@ -139,7 +139,7 @@ def jobs(tier):
     if q:
         combos = [(f, 1, 1, 1) for f in ("oid", "path")] + [(f, 2, 1, 0) for f in ("oid",)]
     else:
-        combos = [(f, 1, 1, 2) for f in ("oid", "path", "mixed", "oid-ci")] + [(f, 2, 1, 1) for f in ("oid", "path")] + [(f, 2, 2, 1) for f in ("oid",)]
+        combos = [(f, 1, 1, 2) for f in ("oid", "path", "mixed", "oid-ci")] + [(f, 2, 1, 1) for f in ("oid", "path")] + [(f, 2, 2, 0) for f in ("oid",)]
     for f, nl, nr, sl in combos:
         out.append({"harness": "merge", "params": {"flavour": f, "nl": nl, "nr": nr, "slots": sl}, "label": "%s/%d+%d-ops/%d-slots" % (f, nl, nr, sl)})
     return out
@@ -151,7 +151,7 @@ def meta(tier):
                        "integers constrained so that the object sets touched by the two sides (closed under ancestor/descendant) are disjoint; z3 enumerates the satisfying assignments, "
                        "all interleavings of the two sequences and all schedule slots; the real engine runs on each and both quiet-state trees must equal a pure reference tree "
                        "(base + both deltas), with no '.conflicted' name.",
-        "bounds": {"operations": [o[:3] for o in OPS], "per side": "1+1 (2 flavours), 2+1 (quick: object ids); thorough 1+1 x 2 slots on 4 flavours, 2+1 on 2, 2+2 on 1", "slots": "1 (2)"},
+        "bounds": {"operations": [o[:3] for o in OPS], "per side": "1+1 (2 flavours), 2+1 (quick: object ids); thorough 1+1 x 2 slots on 4 flavours, 2+1 x 1 slot on 2, 2+2 without slots on 1", "slots": "1 (2)"},
         "symbolic": ["operation indices per side under the disjointness constraint", "interleaving positions", "schedule slots"],
         "outside": ["longer sequences", "other base trees"],
         "stubs": ["engine lab determinisation"],
